@@ -5,17 +5,19 @@ from . import life
 from . import sqe
 
 EXPLANATION = (
-    "Decides: (R1) PollingState::set_polling and ::wake each perform exactly one atomic read-modify-write (swap / "
-    "fetch_or, AcqRel) and no separate load/store; the two flag constants are distinct single bits; the stored value "
-    "and the returned boolean are evaluated symbolically for all 4 old states x argument values and compared with the "
-    "protocol truth table (constant folding over a 2-bit domain, not execution of a10); (R2) in Completions::poll the "
-    "blocking enter is dominated by set_polling(true), on its `true` (already awoken) edge the timeout is "
-    "Some(Duration::ZERO), and set_polling(false) follows the enter on every path before any return, including the "
-    "error path; (R3) Submissions::wake: `false` from polling.wake() returns without a request; otherwise the request "
-    "is MSG_RING to the ring's own fd with WAKE_USER_DATA, every path from a successful add to Ok passes through "
-    "Shared::enter, and the single-issuer path uses io_uring_register(SEND_MSG_RING); (R4) wake only touches "
-    "Arc<Shared>-owned state, so it is harmless after the Ring is dropped. Completeness of the two-flag handshake over "
-    "all interleavings is a model-checking question and is not decided."
+    'Decides: (R1) PollingState::set_polling and ::wake each perform exactly one atomic read-modify-write '
+    '(swap / fetch_or, AcqRel) and no separate load/store; the two flag constants are distinct single bits; '
+    'the stored value and the returned boolean are evaluated symbolically for all 4 old states x argument '
+    'values and compared with the protocol truth table (constant folding over a 2-bit domain, not execution of '
+    'a10); (R2) in Completions::poll the blocking enter is dominated by set_polling(true), on its `true` '
+    '(already awoken) edge the timeout is Some(Duration::ZERO), set_polling(false) follows the enter on every '
+    'path before any return, including the error path, and before any completion is processed or waker run (it '
+    'also clears the awoken flag), and is never reached without set_polling(true) before it; (R3) '
+    'Submissions::wake: `false` from polling.wake() returns without a request; otherwise the request is '
+    "MSG_RING to the ring's own fd with WAKE_USER_DATA, every path from a successful add to Ok passes through "
+    'Shared::enter, and the single-issuer path uses io_uring_register(SEND_MSG_RING); (R4) wake only touches '
+    'Arc<Shared>-owned state, so it is harmless after the Ring is dropped. Completeness of the two-flag '
+    'handshake over all interleavings is a model-checking question and is not decided.'
 )
 NOT_DECIDED = "completeness of the two-flag handshake over all interleavings (model checking, outside this family)"
 ASSUMPTIONS = ["a MSG_RING completion posted to the ring makes io_uring_enter(GETEVENTS) return"]
